@@ -150,7 +150,9 @@ def to_py(v, net=BTC):
     from pycoin.message.PeerAddress import PeerAddress
     from pycoin.message.InvItem import InvItem
     if isinstance(v, list):
-        return [to_py(x, net) for x in v]
+        # array elements that are tuples are handed over alternately as Python tuples and lists (both are "tuples" to pack)
+        out = [to_py(x, net) for x in v]
+        return [list(x) if (i % 2 == 1 and isinstance(x, tuple)) else x for i, x in enumerate(out)]
     if isinstance(v, tuple):
         tag = v[0]
         if tag == "A":
